@@ -590,44 +590,83 @@ func c15TemplateSource(r *Run, s *c15Sel) {
 		for p := range params {
 			arg := cs.Common().Args[paramIndex(p)]
 			pos := r.Prog.Pos(cs.Pos())
-			roots := c15CanonRoot(arg, s.reach, 0)
-			good := len(roots) > 0
+			// provenance: follow the argument up through callers' parameters and down into the results of
+			// repository helpers; every non-nil leaf must be defined under IsReplicaSetUpToDate(...)==true
 			var d []string
-			for _, rt := range roots {
-				var in *ssa.Function
-				if i, ok := rt.(ssa.Instruction); ok {
-					in = i.Parent()
+			nLeaves := 0
+			var prov func(v ssa.Value, depth int) bool
+			prov = func(v ssa.Value, depth int) bool {
+				if depth > 6 {
+					return false
 				}
-				under := false
-				if in != nil {
-					ff := ffs[in]
-					if ff == nil {
-						ff = computeFacts(in)
-						ffs[in] = ff
+				okAll := true
+				for _, o := range origins(v) {
+					if isNilConst(o) {
+						continue
 					}
-					// every non-nil origin must be defined under the up-to-date fact
-					under = true
-					n := 0
-					for _, o := range origins(rt) {
-						if isNilConst(o) {
+					switch x := o.(type) {
+					case *ssa.Parameter:
+						sites := callSitesOf(x.Parent(), s.reach)
+						if len(sites) == 0 {
+							d = append(d, descValueC(o)+" (parameter of an uncalled function)")
+							okAll = false
+						}
+						for _, c2 := range sites {
+							if i := paramIndex(x); i < len(c2.Common().Args) {
+								if !prov(c2.Common().Args[i], depth+1) {
+									okAll = false
+								}
+							}
+						}
+						continue
+					case *ssa.Extract:
+						if c2, isC := x.Tuple.(*ssa.Call); isC {
+							if cal := staticCallee(&c2.Call); cal != nil && r.Prog.IsRuleSite(cal) && len(cal.Blocks) > 0 {
+								for _, b := range cal.Blocks {
+									if ret := returnOf(b); ret != nil && x.Index < len(ret.Results) {
+										if !prov(ret.Results[x.Index], depth+1) {
+											okAll = false
+										}
+									}
+								}
+								continue
+							}
+						}
+					case *ssa.Call:
+						if cal := staticCallee(&x.Call); cal != nil && r.Prog.IsRuleSite(cal) && len(cal.Blocks) > 0 && cal.Signature.Results().Len() == 1 {
+							for _, b := range cal.Blocks {
+								if ret := returnOf(b); ret != nil {
+									if !prov(ret.Results[0], depth+1) {
+										okAll = false
+									}
+								}
+							}
 							continue
 						}
-						n++
-						b := blockOf(o)
-						if b == nil || !ff.Holds(b, true, func(c ssa.Value, _ string) bool {
+					}
+					// leaf
+					nLeaves++
+					under := false
+					if b := blockOf(o); b != nil {
+						in := b.Parent()
+						ff := ffs[in]
+						if ff == nil {
+							ff = computeFacts(in)
+							ffs[in] = ff
+						}
+						under = ff.Holds(b, true, func(c ssa.Value, _ string) bool {
 							_, ok := isCallTo(c, pkgComparison+".IsReplicaSetUpToDate")
 							return ok
-						}) {
-							under = false
-						}
+						})
 					}
-					under = under && n > 0
+					d = append(d, fmt.Sprintf("%s (selected under IsReplicaSetUpToDate=%v)", descValueC(o), under))
+					if !under {
+						okAll = false
+					}
 				}
-				d = append(d, fmt.Sprintf("%s (selected under IsReplicaSetUpToDate=%v)", descValueC(rt), under))
-				if !under {
-					good = false
-				}
+				return okAll
 			}
+			good := prov(arg, 0) && nLeaves > 0
 			r.Check("C15.R9", "template replica set of the selection", pos, shortFunc(cs.Parent()),
 				"node fitness is tested with the pod template of the replica set matching spec.template: the replica-set argument of the selection call is, at the reconciler, the value selected under comparison.IsReplicaSetUpToDate(...) == true",
 				good, "argument "+descValueC(arg)+" resolves to "+strings.Join(d, "; "))
